@@ -477,3 +477,13 @@ M('C19', 'iso2-iterative-extraction', SVF, "    let r = UnitComplex::from_rotati
 # ---------------------------------------------------------------- thorough tier: type-level witnesses
 M('C17', 'witness-derefmut', 'src/common/discrete_domain.rs', "impl Deref for DiscreteDomain {", "impl std::ops::DerefMut for DiscreteDomain {\n    fn deref_mut(&mut self) -> &mut [f64] {\n        &mut self.values\n    }\n}\n\nimpl Deref for DiscreteDomain {", 'WITNESS:C17DomainNoIndexMut', tier='thorough')
 M('C01', 'witness-lengths-pub', 'src/geom2/curve2.rs', "    lengths: Vec<f64>,", "    pub lengths: Vec<f64>,", 'WITNESS:C01LengthsPrivate', tier='thorough')
+ROTF = 'src/geom3/align3/rotations.rs'
+M('C08', 'to_wpr-neg-lock-unreachable', ROTF, "    } else if sin_y < EPSILON - 1.0 {", "    } else if sin_y < -1.0 - EPSILON {", 'to_wpr:generic-branch-away-from-lock')
+M('C08', 'to_wpr-neg-lock-sign', ROTF, "        let rx = -(m[(1, 0)].atan2(m[(1, 1)]));", "        let rx = m[(1, 0)].atan2(m[(1, 1)]);", 'to_wpr:branches')
+M('C08', 'to_wpr-rz-entries', ROTF, "        let rz = (-m[(0, 1)]).atan2(m[(0, 0)]);", "        let rz = (-m[(1, 0)]).atan2(m[(0, 0)]);", 'to_wpr:branches')
+M('C08', 'neutral-to_wpr-threshold-form', ROTF, "    } else if sin_y < EPSILON - 1.0 {", "    } else if sin_y < -(1.0 - EPSILON) {", '', kind='neutral')
+M('C06', 'dedup-relative-tolerance', 'src/geom2/polyline2.rs', "    results.dedup_by(|a, b| (a.0 - b.0).abs() < 1e-8);", "    results.dedup_by(|a, b| (a.0 - b.0).abs() < 1e-8 * a.0.abs().max(b.0.abs()));", 'dedup-predicate')
+MEAS = 'src/geom3/mesh/measurement.rs'
+M('C03', 'deviation-sign-from-raw-position', MEAS, "                } else if closest.normal.dot(&v) > 0.0 {", "                } else if closest.normal.dot(&point.coords) > 0.0 {", 'POSDOT')
+M('C03', 'plane-distance-drops-offset', 'src/geom3/plane3.rs', "        self.normal.dot(&point.coords) - self.d", "        self.normal.dot(&point.coords) - self.d.min(0.0)", 'POSDOT')
+M('C03', 'neutral-plane-distance-temp', 'src/geom3/plane3.rs', "        self.normal.dot(&point.coords) - self.d", "        let proj = self.normal.dot(&point.coords);\n        proj - self.d", '', kind='neutral')
